@@ -8,6 +8,9 @@ Fixpoint sl (l : list stmt) : stmts := match l with [] => SNil | s :: r => SCons
 (* built-in consumers of an instrumented iterator (destructuring, spread, Array.from, new Map, Promise.all):
    want = Some k: the consumer stops after k values (array destructuring pattern of k elements);
    sthrow = Some (j, v): the consumer's own step on the j-th value throws v (mapFn, non-object entry, resolve). *)
+(* the value thrown by a failing consumer step: 0 encodes a TypeError raised by the built-in itself *)
+Definition sval (sv : nat) : val := match sv with O => VTypeErr | _ => VNum sv end.
+
 Fixpoint consume (fuel : nat) (it : iterd) (want : option nat) (sthrow : option (nat * nat)) (idx : nat)
   : list event * outcome :=
   match fuel with O => ([], OStuck) | S n =>
@@ -27,14 +30,14 @@ Fixpoint consume (fuel : nat) (it : iterd) (want : option nat) (sthrow : option 
         if Nat.eqb j idx then ([ENext id], OThrow (VNum v)) else
         if Nat.leb (it_len it) idx then ([ENext id], OValue VUndef) else
         match sthrow with
-        | Some (sj, sv) => if Nat.eqb sj idx then (ENext id :: close_ev, OThrow (VNum sv))
+        | Some (sj, sv) => if Nat.eqb sj idx then (ENext id :: close_ev, OThrow (sval sv))
                            else let '(t, o) := consume n it want sthrow (S idx) in (ENext id :: t, o)
         | None => let '(t, o) := consume n it want sthrow (S idx) in (ENext id :: t, o)
         end
     | None =>
         if Nat.leb (it_len it) idx then ([ENext id], OValue VUndef) else
         match sthrow with
-        | Some (sj, sv) => if Nat.eqb sj idx then (ENext id :: close_ev, OThrow (VNum sv))
+        | Some (sj, sv) => if Nat.eqb sj idx then (ENext id :: close_ev, OThrow (sval sv))
                            else let '(t, o) := consume n it want sthrow (S idx) in (ENext id :: t, o)
         | None => let '(t, o) := consume n it want sthrow (S idx) in (ENext id :: t, o)
         end
@@ -45,7 +48,35 @@ Inductive tcase :=
 | CProg (fnmode : bool) (prog : stmts) (sc : list bool) (otrace : list event) (oout : outcome)
 | CBuiltin (it : iterd) (want : option nat) (sthrow : option (nat * nat)) (otrace : list event) (oout : outcome)
 | CGenCatch (it : iterd) (want : nat) (otrace : list event) (oout : outcome)
+| CGenOuter (nested thr : bool) (it1 it2 : iterd) (k : nat) (otrace : list event) (oout : outcome)
 | CFail.
+
+(* generator bodies whose for-of is OUTSIDE the try/finally:
+     plain : for (x of it1) { try { yield x } finally { ev 901 } }
+     nested: for (x of it1) { try { for (y of it2) { yield y } } finally { ev 901 } }
+   driven by k next() calls (the harness only generates iterators that do deliver those k values) and then
+   return(7) or throw(777): every open iterator is closed exactly once, innermost first, the finally block in between;
+   a throwing / non-object return() decides the outcome only if no throw is pending (IteratorClose). *)
+Definition close_ev (it : iterd) : list event :=
+  match it_ret it with RetMissing => [] | _ => [EReturn (it_id it)] end.
+Definition close_out (it : iterd) (pending : outcome) : outcome :=
+  match pending with
+  | OThrow _ => pending
+  | _ => match it_ret it with
+         | RetThrow v => OThrow (VNum v)
+         | RetNonObj => OThrow VTypeErr
+         | _ => pending
+         end
+  end.
+Definition gen_outer (nested thr : bool) (it1 it2 : iterd) (k : nat) : list event * outcome :=
+  let start := if thr then OThrow (VNum 777) else OValue VUndef in
+  if nested then
+    let o2 := close_out it2 start in
+    ([ENext (it_id it1)] ++ repeat (ENext (it_id it2)) k ++ close_ev it2 ++ [EEv 901] ++ close_ev it1,
+     close_out it1 o2)
+  else
+    (* each resumed iteration leaves its try block normally, so its finally runs before the next step *)
+    (concat (repeat [ENext (it_id it1); EEv 901] k) ++ close_ev it1, close_out it1 start).
 
 (* a generator body  try { yield* it  |  for (x of it) yield x } catch (e) { ev 900; throw e }  driven by [want] next()
    calls and then return(): whatever is thrown while stepping or closing the iterator is thrown at the suspended
@@ -72,6 +103,7 @@ Definition model_S (c : tcase) : list event * outcome :=
   | CProg fm p sc _ _ => run_S sfuel fm p sc
   | CBuiltin it w st _ _ => consume 200 it w st 0
   | CGenCatch it w _ _ => gen_catch it w
+  | CGenOuter n t i1 i2 k _ _ => gen_outer n t i1 i2 k
   | CFail => ([], OStuck)
   end.
 
@@ -80,6 +112,7 @@ Definition model_I (c : tcase) : list event * outcome :=
   | CProg fm p sc _ _ => run_I ifuel fm p sc
   | CBuiltin it w st _ _ => consume 200 it w st 0
   | CGenCatch it w _ _ => gen_catch it w
+  | CGenOuter n t i1 i2 k _ _ => gen_outer n t i1 i2 k
   | CFail => ([], OStuck)
   end.
 
@@ -88,6 +121,7 @@ Definition observed (c : tcase) : list event * outcome :=
   | CProg _ _ _ t o => (t, o)
   | CBuiltin _ _ _ t o => (t, o)
   | CGenCatch _ _ t o => (t, o)
+  | CGenOuter _ _ _ _ _ t o => (t, o)
   | CFail => ([], OValue VUndef)
   end.
 
